@@ -465,6 +465,15 @@ class ScriptedPeer:
     def on_transmission(self, world: World, tr, index: int, data: bytes):
         a = self.next_action()
         self.history.append((index, a))
+        if a[0] == "combo":  # several effects for one transmission, e.g. an answer followed by a late ICMP error
+            err = None
+            for sub in a[1]:
+                e = self._do(world, tr, index, data, sub)
+                err = err or e
+            return err
+        return self._do(world, tr, index, data, a)
+
+    def _do(self, world: World, tr, index: int, data: bytes, a):
         kind = a[0]
         r = self.responder
         if kind == "drop":
